@@ -41,7 +41,7 @@ fn viol(st: &mut Stats, sig: String, detail: String, kind: &str, seed: u64, log:
     st.violation(Violation {
         signature: sig,
         detail,
-        replay: json!({"kind": "c07", "scenario": kind, "run_seed": seed, "trace_tail": sim::render(log, 80)}),
+        replay: json!({"kind": "c07", "scenario": kind, "run_seed": seed, "trace_tail": sim::render(log, 400)}),
     });
 }
 
@@ -132,11 +132,66 @@ fn judge_open(st: &mut Stats, log: &[Rec], o: &OpenOutcome, retries: usize, kind
 }
 
 /// (b)+(c): two real endpoints, scripted RNGs.
+/// A tracing subscriber that only exists to widen one window: it sleeps at the existing
+/// `trace!("flow_id = ...")` event inside `Multiplexor::insert_new_flow` (between choosing an id
+/// and registering it), on real threads. No repository change is involved.
+mod trace_delay {
+    use std::sync::atomic::{AtomicBool, AtomicU64, Ordering};
+    use tracing::field::{Field, Visit};
+    use tracing::span::{Attributes, Id, Record};
+    use tracing::{Event, Level, Metadata, Subscriber};
+
+    pub static ON: AtomicBool = AtomicBool::new(false);
+    pub static HITS: AtomicU64 = AtomicU64::new(0);
+
+    struct Msg(String);
+    impl Visit for Msg {
+        fn record_debug(&mut self, field: &Field, value: &dyn std::fmt::Debug) {
+            if field.name() == "message" {
+                self.0 = format!("{value:?}");
+            }
+        }
+    }
+
+    pub struct DelaySub;
+    impl Subscriber for DelaySub {
+        fn enabled(&self, md: &Metadata<'_>) -> bool {
+            md.is_event() && *md.level() == Level::TRACE && md.target().starts_with("penguin_mux") && md.file().is_some_and(|f| f.ends_with("lib.rs"))
+        }
+        fn new_span(&self, _: &Attributes<'_>) -> Id {
+            Id::from_u64(1)
+        }
+        fn record(&self, _: &Id, _: &Record<'_>) {}
+        fn record_follows_from(&self, _: &Id, _: &Id) {}
+        fn event(&self, ev: &Event<'_>) {
+            if !ON.load(Ordering::Relaxed) {
+                return;
+            }
+            let mut m = Msg(String::new());
+            ev.record(&mut m);
+            if m.0.starts_with("flow_id =") {
+                HITS.fetch_add(1, Ordering::Relaxed);
+                std::thread::sleep(std::time::Duration::from_micros(400));
+            }
+        }
+        fn enter(&self, _: &Id) {}
+        fn exit(&self, _: &Id) {}
+    }
+
+    pub fn install() {
+        let _ = tracing::subscriber::set_global_default(DelaySub);
+    }
+}
+
 fn scripted_case(st: &mut Stats, seed: u64, collide: bool) {
+    scripted_case_on(st, seed, collide, false);
+}
+
+fn scripted_case_on(st: &mut Stats, seed: u64, collide: bool, thr: bool) {
     st.evaluations += 1;
-    st.engine("SIM", 1);
+    st.engine(if thr { "THR" } else { "SIM" }, 1);
     let mut rng = Rng64::new(mix(seed, 0xC7));
-    let kind = if collide { "collision" } else { "scripted-rng" };
+    let kind = if thr { "collision-threads" } else if collide { "collision" } else { "scripted-rng" };
     let retries = [rng.range(1, 5) as usize, rng.range(1, 5) as usize];
     let cfg = [
         EpCfg { retries: retries[0], rwnd: *rng.pick(&[1u32, 2, 4, 16]), ..EpCfg::default() },
@@ -152,6 +207,13 @@ fn scripted_case(st: &mut Stats, seed: u64, collide: bool) {
             sides[0].hold_ms = 50;
             sides[1].hold_ms = 50;
         }
+        if thr {
+            // on real threads the two opens are not exactly simultaneous: keep every stream alive well beyond the
+            // opening phase, so that an id is never drawn again while frames of a finished incarnation are still in
+            // flight (immediate re-use with frames in flight is not demanded, see DESIGN.md C06/C07)
+            sides[0].hold_ms = 8;
+            sides[1].hold_ms = 8;
+        }
         StreamPlan { sid, opener: (sid % 2) as u8, open_delay: 0, sides, awaited: [true, true], host_extra: vec![], port: sid as u16 }
     }).collect();
     let plans = Arc::new(plans);
@@ -159,7 +221,7 @@ fn scripted_case(st: &mut Stats, seed: u64, collide: bool) {
     let fresh = [rng.next() as u32 | 1, rng.next() as u32 | 1];
     let cfg2 = cfg.clone();
     let plans2 = plans.clone();
-    let end = sim::run(&sh, move |sh| async move {
+    let scenario = move |sh: Sh| async move {
         let ([e0, e1], _net) = wl::connect(&sh, [&cfg2[0], &cfg2[1]], [0, 0], [None, None], seed, true);
         let muxes = [e0.mux.clone(), e1.mux.clone()];
         let mut outcomes: Vec<OpenOutcome> = Vec::new();
@@ -217,9 +279,24 @@ fn scripted_case(st: &mut Stats, seed: u64, collide: bool) {
         drop(m1);
         t1.await.ok();
         outcomes
-    });
+    };
+    let end = if thr {
+        trace_delay::ON.store(true, std::sync::atomic::Ordering::Relaxed);
+        let r = sim::run_threads(&sh, 6, Duration::from_secs(10), scenario);
+        trace_delay::ON.store(false, std::sync::atomic::Ordering::Relaxed);
+        r
+    } else {
+        sim::run(&sh, scenario)
+    };
     let log = sh.take_log();
     match end {
+        sim::RunEnd::Stalled if thr => {
+            st.count("thr_timeouts", 1);
+            if st.inconclusive.len() < 3 {
+                st.inconclusive.push("c07 THR run hit the 10 s wall-clock limit".into());
+            }
+            return;
+        }
         sim::RunEnd::Finished(outcomes) => {
             for o in &outcomes {
                 judge_open(st, &log, o, retries[o.ep as usize], kind, seed);
@@ -235,8 +312,9 @@ fn scripted_case(st: &mut Stats, seed: u64, collide: bool) {
         sim::RunEnd::Stalled => viol(st, format!("stall|{kind}"), "an open request never resolved (system idle)".into(), kind, seed, &log),
         sim::RunEnd::Panicked(m) => st.inconclusive.push(format!("harness panic in c07 {kind}: {m}")),
     }
-    let meta = Meta { abnormal_end: false, dgram_cap: [16, 16], stream_is_bridge: false, sim: true, ..Meta::default() };
-    let an = monitors::analyse(&log, SPEC.fams, &meta);
+    let meta = Meta { abnormal_end: false, dgram_cap: [16, 16], stream_is_bridge: false, sim: !thr, ..Meta::default() };
+    // "without disturbing the existing flow": the streams that do get established must carry their data intact
+    let an = monitors::analyse(&log, &[Fam::Open, Fam::Bytes, Fam::Panic], &meta);
     for f in an.findings {
         viol(st, format!("{}|{kind}", f.sig), f.detail, kind, seed, &log[..f.at.min(log.len())]);
     }
@@ -452,6 +530,19 @@ pub fn run(p: &Params) -> (Stats, &'static str) {
     sim::install_observer();
     let mut st = Stats::new();
     let base = p.shard_seed("C07");
+    if p.get("engine") == Some("thr") {
+        // simultaneous opens with identical ids on real threads, with the id-selection window widened
+        trace_delay::install();
+        let n = p.share(if p.tier_thorough { 40_000 } else { 1200 });
+        for i in 0..n {
+            scripted_case_on(&mut st, mix(base, 0x7_0000 + i), true, true);
+            if st.too_many_violations() || st.counters.get("thr_timeouts").copied().unwrap_or(0) >= 3 {
+                break;
+            }
+        }
+        st.target("delays_injected_in_id_selection_window", trace_delay::HITS.load(std::sync::atomic::Ordering::Relaxed));
+        return (st, SPEC.rule);
+    }
     let n = p.share(if p.tier_thorough { SPEC.runs_thorough } else { SPEC.runs_quick });
     for i in 0..n {
         let seed = mix(base, i);
@@ -467,4 +558,26 @@ pub fn run(p: &Params) -> (Stats, &'static str) {
         }
     }
     (st, SPEC.rule)
+}
+
+
+/// Debug helper: one collision run on threads, printing wire and API events.
+pub fn debug_thr(seed: u64) {
+    std::panic::set_hook(Box::new(|_| {}));
+    sim::install_observer();
+    trace_delay::install();
+    let mut st = Stats::new();
+    scripted_case_on(&mut st, seed, true, true);
+    for v in &st.violations {
+        println!("VIOL {} :: {}", v.signature, v.detail);
+        if let Some(t) = v.replay.get("trace_tail").and_then(|t| t.as_array()) {
+            for l in t {
+                let l = l.as_str().unwrap_or("");
+                if !l.contains("hook") {
+                    println!("{l}");
+                }
+            }
+        }
+        break;
+    }
 }
